@@ -12,6 +12,19 @@ CLAIMED = {
  },
 }
 
+CLAIMED["C03"] = {
+  "text": "Lean 4 theorems (Geodesy/Props/C03.lean) over the model of Op::apply / pipeline_fwd / pipeline_inv / Op::op with UNINTERPRETED leaf operators, hence for all operators, parameters, pipeline lengths and coordinates: forward application = left fold of the non-omit_fwd steps applied as stand-alone operators (pipeline_fwd_eq_seq), inverse = the same over the reversed list with omit_inv (pipeline_inv_eq_seq_rev), count = running minimum / set size if nothing ran, an inverted step is the step with directions exchanged (op_apply_inverted, handleInversion_spec), step i of an instantiated pipeline depends on the text of step i only (modifier_scope), a pipeline carries no omit modifier of its own (pipeline_has_no_omit). Tied to /repo by a correspondence run on random pipelines with macros nested 0-6 deep and modifiers in every position/spelling (instantiated tree dump and applied values, exact) and by the sequential-application oracle evaluated on the implementation.",
+  "design_ref": "DESIGN.md section 7, C03; Appendix A.3",
+  "note": "Trusted: Lean kernel + standard axioms; hand model tied by differential testing; the tokenizer part of 'modifier anywhere' (normalize / modifier rotation) is covered by the correspondence and by C16, not by a C03 theorem; stack steps are excluded from the sequential reading (C12).",
+  "technique": "machine-checked proof in Lean 4 (fold characterisation of the modelled pipeline loops, induction over step lists) + model/implementation correspondence check",
+}
+CLAIMED["C04"] = {
+  "text": "Lean 4 theorems (Geodesy/Props/C04.lean): chase is total for every pair of maps and every key (chase_total, by a decreasing count of unvisited entries), every RawParameters::next strictly raises the recursion level, instantiate never runs out of fuel when fuel+level >= 102 for EVERY environment, i.e. every set of macro definitions incl. cyclic ones (instantiate_fuel_sufficient, op_new_fuel): nested calls are at most 102 deep and Op::new returns a value or an error. The meaning clause (invocation = expansion, all binding forms, every lexical order of names, nesting, inv anywhere) is decided by the correspondence run (tree dumps + values + error class, exact) and by an expansion oracle evaluated on the implementation against an expander written from the documented semantics (DESIGN.md A.2).",
+  "design_ref": "DESIGN.md section 7, C04; Appendix A.2",
+  "note": "Partial: the termination / bounded depth clause is proved; macro_eq_expansion is validated (correspondence + oracle), not yet a theorem. Width of legitimate expansions is not bounded (stated in DESIGN).",
+  "technique": "machine-checked proof in Lean 4 (termination measure, fuel sufficiency by induction) + model/implementation correspondence check + expansion oracle",
+}
+
 ALL = ["C%02d" % i for i in range(1, 21)]
 
 def main():
